@@ -27,7 +27,8 @@ REQUIRED = ["op.add", "op.add-list", "op.add-network", "op.remove_obstacle", "op
             "op.remove_traffic_light-list", "op.remove_intersection", "op.remove_intersection-list",
             "op.replace_lanelet_network", "op.erase_lanelet_network", "op.generate_object_id", "collision-predicted",
             "re-add-after-removal", "hooked-state-checked", "nonpositive-ids", "op.remove-stale.lanelet",
-            "op.remove-stale.sign", "op.remove-stale.intersection", "network-with-duplicate-ids", "lanelet-with-references-to-no-sign-or-light"]
+            "op.remove-stale.sign", "op.remove-stale.intersection", "network-with-duplicate-ids", "lanelet-with-references-to-no-sign-or-light",
+            "op.remove-twin.sign", "op.remove-twin.light", "op.remove-twin.static"]
 EXHAUSTIVE = {"quick": "all operation sequences of length <= 2 over the fixed 26-operation alphabet",
               "thorough": "all operation sequences of length <= 4 over the fixed 26-operation alphabet"}
 ASSUMPTIONS = ["atomicity of list adds beyond the failing element is not demanded (elements before it stay added)",
@@ -168,7 +169,8 @@ FIXED_ALPHABET = [
     ("add", "L1"), ("add", "L3"), ("add", "Os7"), ("remove", "L3"), ("add", "Os1"), ("add", "S3"), ("add", "Op3"), ("add", "I8"), ("add", "Od8"), ("add", "I9"),
     ("add-list", ("L2", "Oe2")), ("add-network", "N1"), ("add-network", "N3"), ("remove", "L1"), ("remove", "Os1"), ("remove-list", ("I8",)),
     ("remove", "I8"), ("remove", "S3"), ("replace", "N2"), ("erase", None), ("gen", None), ("remove-stale", "Os1"),
-    ("remove-stale", "L1"), ("remove-stale", "S3"), ("remove-stale", "I8"),
+    ("remove-stale", "L1"), ("remove-stale", "S3"), ("remove-stale", "I8"), ("remove-twin", "S3"), ("remove-twin", "Os7"),
+    ("add", "T6"), ("remove-twin", "T6"),
 ]
 
 
@@ -327,6 +329,20 @@ def run(ctx):
                         sc.remove_intersection(arg_real)
                     for k in keys:
                         model_remove(m, U, k, live, removed_once, not noref)
+                elif op == "remove-twin":
+                    # removal is by id: the object handed over may be ANOTHER object with the id of a contained one and
+                    # different content (e.g. an edited copy, a re-read element): the contained one goes, its id is free again
+                    if arg not in live:
+                        continue
+                    kind_t = U.spec[arg][0]
+                    if kind_t not in ("sign", "light", "static", "dynamic", "environment"):
+                        continue
+                    import numpy as np
+                    twin = U.make(arg)
+                    twin.translate_rotate(np.array([5.0, 3.0]), 0.0)
+                    ctx.feature("op.remove-twin." + kind_t)
+                    {"sign": sc.remove_traffic_sign, "light": sc.remove_traffic_light}.get(kind_t, sc.remove_obstacle)(twin)
+                    model_remove(m, U, arg, live, removed_once, True)
                 elif op == "remove-stale":
                     # remove_obstacle with an obstacle that is not contained: documented as a warning, no change
                     if arg in live:
@@ -540,7 +556,10 @@ def run(ctx):
             elif c < 0.84:
                 hist.append(("erase", None))
             elif c < 0.90:
-                hist.append(("remove-stale", rng.choice(keys)))
+                if rng.random() < 0.5:
+                    hist.append(("remove-stale", rng.choice(keys)))
+                else:
+                    hist.append(("remove-twin", rng.choice(contained_guess or keys)))
             else:
                 hist.append(("gen", None))
         ctx.fingerprint(["rnd", [[o, a] for o, a in hist]])
